@@ -114,6 +114,10 @@ func (e *SpecEnv) lookupType(x ast.Expr) types.Type {
 func (e *SpecEnv) constVal(c constant.Value, typ types.Type) Val {
 	b := e.b()
 	if typ != nil {
+		if n, ok := opaqueLE(typ); ok && (c.Kind() == constant.Int || c.Kind() == constant.Float) {
+			u, _ := constant.Uint64Val(constant.ToInt(c))
+			return Val{t: b.BV(u, n), typ: typ}
+		}
 		if bt, ok := typ.Underlying().(*types.Basic); ok {
 			switch {
 			case bt.Info()&types.IsUntyped != 0:
@@ -694,6 +698,26 @@ func (e *SpecEnv) evalCall(n *ast.CallExpr) Val {
 			return Val{t: b.Forall([]BoundVar{{bvName, SBV(64)}}, b.Implies(rng, body)), typ: boolT}
 		}
 		return Val{t: b.Exists([]BoundVar{{bvName, SBV(64)}}, b.And(rng, body)), typ: boolT}
+	case "forallPow2":
+		// forallPow2(x, lo, hi, body): body for x = 2^lo .. 2^hi (x int), expanded
+		argn(4)
+		id, ok := n.Args[0].(*ast.Ident)
+		if !ok {
+			specFail("forallPow2: first argument must be an identifier")
+		}
+		lo := e.eval(n.Args[1])
+		hi := e.eval(n.Args[2])
+		if lo.konst == nil || hi.konst == nil {
+			specFail("forallPow2: constant bounds required")
+		}
+		l, _ := constant.Int64Val(lo.konst)
+		h, _ := constant.Int64Val(hi.konst)
+		var cs []*Term
+		for k := l; k <= h; k++ {
+			inner := e.with(map[string]Val{id.Name: {t: b.BV(uint64(1)<<uint(k), 64), typ: types.Typ[types.Int]}})
+			cs = append(cs, inner.evalBool(n.Args[3]))
+		}
+		return Val{t: b.And(cs...), typ: boolT}
 	case "forallT", "existsT":
 		// forallT(x, T, body): x ranges over all values of Go type T
 		argn(3)
